@@ -609,6 +609,9 @@ SOURCES = [
     ('bug/fix', None),
     ('dependabot/npm_and_yarn/lodash-4.17.21', None),
     ('dependabot/PROJ-12-bump', 'PROJ-12'),
+    ('bugfix/RO-5-inside-a-key', 'RO-5'),                 # projects whose name is part of / contains a configured key
+    ('feature/OPS-9', 'OPS-9'),
+    ('bugfix/PROJX-1-longer', 'PROJX-1'),
 ]
 V_SOURCES = [0, 1]
 
